@@ -80,7 +80,14 @@ func (p *Proxy) ServeTCP(in net.Conn) error {
 	}
 
 	go cp(in, out, t.RxCounter)
-	go cp(out, in, t.TxCounter)
+	go func() {
+		err := copyBuffer(out, in, t.TxCounter)
+		if err == nil {
+			// the client is done sending but may still wait for the reply
+			halfClose(out, in)
+		}
+		errc <- err
+	}()
 	err = <-errc
 	if err != nil && err != io.EOF {
 		log.Print("[WARN]: tcp:  ", err)
